@@ -1,7 +1,325 @@
-//! C07 — not implemented yet.
-use vmon::report::Args;
+//! C07 — restore reproduces the old version; row ids stay unique over the whole history.
+use crate::hist::{Extra, Hist, HistCfg, Loc, OpKind, Weights};
+use crate::snap::Snapshot;
+use serde_json::{json, Value};
+use std::collections::BTreeMap;
+use vmon::prng::Rng;
+use vmon::report::{Args, Report};
 
-pub fn run(_args: &Args) -> i32 {
-    eprintln!("HARNESS-ERROR C07 not implemented");
-    2
+fn weights() -> Weights {
+    use OpKind::*;
+    vec![
+        (12, Append),
+        (5, DeleteIds),
+        (2, DeleteVal),
+        (6, Update),
+        (8, Upsert),
+        (8, Compact),
+        (3, CreateIndex),
+        (1, OptimizeIndices),
+        (1, AddColumn),
+        (1, DropColumn),
+        (1, AlterColumn),
+        (1, UpdateConfig),
+        (14, Restore),
+        (2, ConcurrentDeletes),
+        (2, StaleWrite),
+        (1, TagCreate),
+    ]
+}
+
+pub fn run(args: &Args) -> i32 {
+    if args.extra.contains_key("selftest") {
+        return selftest(args);
+    }
+    let report = Report::new(
+        args,
+        "exploration",
+        "case = one seeded history (<=12 quick / <=40 thorough ops, no overwrite/branches) that repeatedly restores a random earlier version and keeps writing (append, update, merge_insert, compaction), stable row ids on in 3 of 4 cases. Oracles: restored latest == snapshot of the source version (schema, ordered rows incl. _rowid, deletion vectors, index list); the map _rowid -> primary key over every version ever committed is a function. Non-trivial = >=1 restore compared and >=1 later commit that issued rows; distinct by (config, op kinds, outcomes).",
+        (70, 900),
+    )
+    .with_min_nontrivial(10);
+    let max_ops = args.tier.pick(12usize, 40);
+    let max_cases = args.tier.pick(4000u64, 200_000);
+    if let Some(c) = args.extra.get("case").and_then(|c| c.parse::<u64>().ok()) {
+        std::env::set_var("E_HIST_VERBOSE", "1");
+        let rt = tokio::runtime::Builder::new_current_thread().enable_all().build().unwrap();
+        rt.block_on(one_case(args.seed, c, max_ops, &report));
+        return report.finish();
+    }
+    crate::hist::run_parallel(&report, args, 16, max_cases, 180, |i, report| {
+        Box::pin(one_case(args.seed, i, max_ops, report))
+    });
+    report.finish()
+}
+
+/// restored latest vs source: what the property names (schema, rows, deletions, indices)
+pub fn content_diff(src: &Snapshot, restored: &Snapshot) -> Option<(String, Value)> {
+    if src.schema != restored.schema {
+        return Some(("schema".into(), json!({"source": src.schema, "restored": restored.schema})));
+    }
+    if src.rows != restored.rows {
+        let (c, d) = crate::snap::diff_rows(src, restored);
+        return Some((c, d));
+    }
+    let fr = |s: &Snapshot| -> Vec<(u64, Option<usize>, Vec<u32>)> {
+        s.frags.iter().map(|f| (f.id, f.physical_rows, f.deleted.clone())).collect()
+    };
+    if fr(src) != fr(restored) || src.n_deleted != restored.n_deleted {
+        return Some((
+            "deletions".into(),
+            json!({"source": format!("{:?}", fr(src)), "restored": format!("{:?}", fr(restored))}),
+        ));
+    }
+    if src.indices != restored.indices {
+        return Some(("indices".into(), json!({"source": src.indices, "restored": restored.indices})));
+    }
+    None
+}
+
+#[derive(Default)]
+pub struct RowIdMap {
+    /// _rowid -> (primary key, first version that showed it)
+    pub map: BTreeMap<u64, (i64, u64)>,
+    /// next_row_id of every version seen, in commit order
+    pub counters: Vec<(u64, u64)>,
+    /// (new version, source version) of every restore
+    pub restores: Vec<(u64, u64)>,
+}
+
+pub struct RowIdConflict {
+    pub rowid: u64,
+    pub first: (i64, u64),
+    pub second: (i64, u64),
+}
+
+impl RowIdMap {
+    /// feed one version's snapshot; returns conflicts (row id shown with two primary keys)
+    pub fn feed(&mut self, s: &Snapshot) -> Vec<RowIdConflict> {
+        let mut out = vec![];
+        let (Some(kr), Some(ki)) = (
+            s.names.iter().position(|n| n == "_rowid"),
+            s.names.iter().position(|n| n == "id"),
+        ) else {
+            return out;
+        };
+        self.counters.push((s.version, s.next_row_id));
+        for r in &s.rows {
+            let (Some(rid), Some(id)) = (r[kr].as_i64(), r[ki].as_i64()) else { continue };
+            let rid = rid as u64;
+            match self.map.get(&rid) {
+                None => {
+                    self.map.insert(rid, (id, s.version));
+                }
+                Some((id0, v0)) if *id0 != id => out.push(RowIdConflict {
+                    rowid: rid,
+                    first: (*id0, *v0),
+                    second: (id, s.version),
+                }),
+                _ => {}
+            }
+        }
+        out
+    }
+    /// Narrow class of a conflict: was the row id handed out again because a restore rolled the
+    /// counter back? (row id >= counter republished by a restore and < the high-water mark before it)
+    pub fn classify(&self, c: &RowIdConflict, snaps: &BTreeMap<u64, Snapshot>, removed: &BTreeMap<u64, Snapshot>) -> String {
+        for (new_v, src_v) in &self.restores {
+            if *new_v > c.second.1 {
+                continue;
+            }
+            let restored_counter = snaps.get(new_v).or_else(|| removed.get(new_v)).map(|s| s.next_row_id);
+            let high_water = self.counters.iter().filter(|(v, _)| v < new_v).map(|(_, n)| *n).max();
+            if let (Some(rc), Some(hw)) = (restored_counter, high_water) {
+                if rc < hw && c.rowid >= rc && c.rowid < hw && c.first.1 > *src_v {
+                    return "rowid-reuse-after-restore-next_row_id-rollback".into();
+                }
+            }
+        }
+        "rowid-shown-with-two-primary-keys".into()
+    }
+}
+
+async fn one_case(seed: u64, case: u64, max_ops: usize, report: &Report) {
+    let mut rng = Rng::for_case(seed, case);
+    let mut cfg = HistCfg::random(&mut rng);
+    if rng.chance(3, 4) {
+        cfg.stable_row_ids = true;
+        if cfg.storage == lance_encoding::version::LanceFileVersion::Legacy {
+            cfg.storage = lance_encoding::version::LanceFileVersion::V2_0;
+        }
+    }
+    let n_ops = rng.urange(5, max_ops);
+    let w = weights();
+    let mut h = Hist::mem(rng.clone(), cfg);
+    h.case = case;
+    let rec = h.create_table("memory://t0").await;
+    if !rec.outcome.is_ok() {
+        report.harness_error(&format!("case {case}: create failed: {}", rec.outcome.text()));
+        return;
+    }
+    let loc = Loc::main("memory://t0");
+    let mut ids = RowIdMap::default();
+    let mut fed: std::collections::BTreeSet<u64> = Default::default();
+    let mut restores_compared = 0u64;
+    let mut commits_after_restore = 0u64;
+    let mut after_restore = false;
+    let mut force_write = false;
+    let feed_new = |h: &Hist, ids: &mut RowIdMap, fed: &mut std::collections::BTreeSet<u64>, report: &Report, seed: u64, case: u64| {
+        let lin = &h.lin[&loc];
+        let vs: Vec<u64> = lin.snaps.keys().copied().filter(|v| !fed.contains(v)).collect();
+        for v in vs {
+            fed.insert(v);
+            let s = &lin.snaps[&v];
+            if !s.stable_row_ids {
+                continue;
+            }
+            report.count("rowid_pk_pairs_checked", s.rows.len() as u64);
+            let conflicts = ids.feed(s);
+            if let Some(c) = conflicts.first() {
+                let class = ids.classify(c, &lin.snaps, &lin.removed);
+                report.violation(
+                    &class,
+                    &format!(
+                        "_rowid {} belongs to id {} in v{} and to id {} in v{} ({} conflicting row ids in that version)",
+                        c.rowid, c.first.0, c.first.1, c.second.0, c.second.1, conflicts.len()
+                    ),
+                    json!({"seed": seed, "case": case, "config": h.cfg.describe(), "rowid": c.rowid,
+                           "first": {"id": c.first.0, "version": c.first.1}, "second": {"id": c.second.0, "version": c.second.1},
+                           "next_row_id_by_version": ids.counters, "restores(new,src)": ids.restores, "ops": h.ops_json(48)}),
+                );
+            }
+        }
+    };
+    feed_new(&h, &mut ids, &mut fed, report, seed, case);
+    for _ in 0..n_ops {
+        if !report.time_left() {
+            break;
+        }
+        let kind: OpKind = if force_write {
+            force_write = false;
+            *rng.pick(&[OpKind::Append, OpKind::Append, OpKind::Upsert, OpKind::Update])
+        } else {
+            *rng.pick_weighted(&w)
+        };
+        let rec = h.step(kind).await;
+        if let (true, Extra::Restore { from, .. }) = (rec.outcome.is_ok(), &rec.extra) {
+            let lin = &h.lin[&loc];
+            let newv = lin.latest();
+            ids.restores.push((newv, *from));
+            after_restore = true;
+            force_write = rng.chance(2, 3);
+            match (lin.snaps.get(from), lin.snaps.get(&newv)) {
+                (Some(src), Some(dst)) => {
+                    restores_compared += 1;
+                    report.count("restores_compared", 1);
+                    report.count("rows_compared_after_restore", src.rows.len() as u64);
+                    if let Some((class, detail)) = content_diff(src, dst) {
+                        report.violation(
+                            &format!("restored-version-differs-{class}"),
+                            &format!("restore of v{from} produced v{newv} whose {class} differ from v{from}"),
+                            json!({"seed": seed, "case": case, "config": h.cfg.describe(), "source": from, "restored": newv,
+                                   "diff": detail, "ops": h.ops_json(48)}),
+                        );
+                    }
+                    // the restore must not have changed the source either
+                    if let Ok(Some((class, detail))) = h.recheck_version(&loc, *from, true).await {
+                        report.violation(
+                            &format!("restore-changed-source-version-{class}"),
+                            &format!("v{from} differs from its snapshot after it was restored"),
+                            json!({"seed": seed, "case": case, "diff": detail, "ops": h.ops_json(48)}),
+                        );
+                    }
+                }
+                _ => {
+                    report.count("restores_without_both_snapshots", 1);
+                }
+            }
+        } else if after_restore && rec.outcome.is_ok() && !rec.new_versions.is_empty() {
+            commits_after_restore += 1;
+        }
+        feed_new(&h, &mut ids, &mut fed, report, seed, case);
+    }
+    if std::env::var("E_HIST_VERBOSE").is_ok() {
+        println!("config: {}", h.cfg.describe());
+        for s in &h.steps {
+            println!("{}", s.brief());
+        }
+        println!("next_row_id by version: {:?}", ids.counters);
+        for p in &h.problems {
+            println!("PROBLEM {p}");
+        }
+        for p in &h.model_disagreements {
+            println!("MODEL {p}");
+        }
+    }
+    h.count_ops(report);
+    report.count("distinct_rowids_tracked", ids.map.len() as u64);
+    let nontrivial = restores_compared >= 1 && commits_after_restore >= 1;
+    report.case(if nontrivial { Some(h.shape_sig()) } else { None });
+    if report.want_sample() && nontrivial && h.cfg.stable_row_ids {
+        report.sample(json!({"case": case, "config": h.cfg.describe(), "restores(new,src)": ids.restores,
+                             "next_row_id_by_version": ids.counters, "rowids_tracked": ids.map.len(), "ops": h.ops_json(14)}));
+    }
+}
+
+fn selftest(args: &Args) -> i32 {
+    let rt = tokio::runtime::Builder::new_current_thread().enable_all().build().unwrap();
+    let (v1, v2) = rt.block_on(async {
+        let mut rng = Rng::for_case(args.seed, 0);
+        let mut cfg = HistCfg::random(&mut rng);
+        cfg.storage = lance_encoding::version::LanceFileVersion::V2_0;
+        cfg.stable_row_ids = true;
+        let mut h = Hist::mem(rng, cfg);
+        h.create_table("memory://t0").await;
+        h.step(OpKind::Append).await;
+        let loc = h.live_locs()[0].clone();
+        (h.lin[&loc].snaps[&1].clone(), h.lin[&loc].snaps[&2].clone())
+    });
+    let mut fails = vec![];
+    // (a) restored-content oracle
+    let mut m = v1.clone();
+    m.rows.pop();
+    if content_diff(&v1, &m).map(|x| x.0) != Some("rows-lost".into()) {
+        fails.push("dropping a row of the restored version not flagged".to_string());
+    }
+    let mut m = v1.clone();
+    m.indices.push("x".into());
+    if content_diff(&v1, &m).map(|x| x.0) != Some("indices".into()) {
+        fails.push("index list change not flagged".to_string());
+    }
+    if content_diff(&v1, &v1).is_some() {
+        fails.push("identical snapshots differ".to_string());
+    }
+    // (b) row id map: simulate the counter rollback: a later version re-issues the row ids v2 used
+    let mut ids = RowIdMap::default();
+    assert!(ids.feed(&v1).is_empty() && ids.feed(&v2).is_empty());
+    let mut v3 = v1.clone(); // "restore of v1"
+    v3.version = 3;
+    ids.restores.push((3, 1));
+    assert!(ids.feed(&v3).is_empty());
+    let mut v4 = v2.clone();
+    v4.version = 4;
+    let ki = v4.names.iter().position(|n| n == "id").unwrap();
+    let n1 = v1.rows.len();
+    for r in v4.rows.iter_mut().skip(n1) {
+        r[ki] = vmon::table::Cell::Int(1_000_000 + r[ki].as_i64().unwrap() as i128);
+    }
+    let c = ids.feed(&v4);
+    let mut snaps = BTreeMap::new();
+    snaps.insert(3u64, v3.clone());
+    if c.is_empty() {
+        fails.push("re-issued row ids not flagged".to_string());
+    } else if ids.classify(&c[0], &snaps, &BTreeMap::new()) != "rowid-reuse-after-restore-next_row_id-rollback" {
+        fails.push(format!("rollback class not recognised: {}", ids.classify(&c[0], &snaps, &BTreeMap::new())));
+    }
+    if fails.is_empty() {
+        println!("SELFTEST C07 ok: restored-content and rowid-map oracles fire on corrupted observations");
+        0
+    } else {
+        for f in fails {
+            println!("SELFTEST C07 FAILED: {f}");
+        }
+        2
+    }
 }
